@@ -139,6 +139,31 @@ pub enum Plan {
     Crash(probe::CrashPlan),
 }
 
+/// Bitwise equality of component words, except that any NaN equals any NaN: the
+/// sign and payload bits of a NaN produced by arithmetic are unspecified in Rust
+/// (they may differ between two evaluations of the same expression), so they are
+/// not part of "the same values". Out-of-range inputs do reach NaN (e.g. a
+/// negative base under `powf` in `Xyz -> Srgb`).
+pub fn same_words(layout: Layout, a: &Words, b: &Words) -> bool {
+    for j in 0..layout.ncomp() {
+        if a[j] == b[j] {
+            continue;
+        }
+        let both_nan = match layout {
+            Layout::B => f64::from_bits(a[j]).is_nan() && f64::from_bits(b[j]).is_nan(),
+            _ => f32::from_bits(a[j] as u32).is_nan() && f32::from_bits(b[j] as u32).is_nan(),
+        };
+        if !both_nan {
+            return false;
+        }
+    }
+    true
+}
+
+pub fn same_buffers(layout: Layout, a: &[Words], b: &[Words]) -> bool {
+    a.len() == b.len() && a.iter().zip(b.iter()).all(|(x, y)| same_words(layout, x, y))
+}
+
 /// An operator applied through the guard: `x * scale + add` on every component.
 pub fn mutate_words(w: Words, layout: Layout, scale_bits: u64, add_bits: u64) -> Words {
     let mut out = w;
@@ -313,11 +338,17 @@ impl<'c, 'a> Exec<'c, 'a> {
             return;
         }
         for (i, w) in items.enumerate() {
-            for x in w.iter() {
-                self.obs.u64(*x);
+            for (j, x) in w.iter().enumerate() {
+                // NaNs are digested as one value (their bits are unspecified)
+                let nan = j < self.layout.ncomp()
+                    && match self.layout {
+                        Layout::B => f64::from_bits(*x).is_nan(),
+                        _ => f32::from_bits(*x as u32).is_nan(),
+                    };
+                self.obs.u64(if nan { u64::MAX } else { *x });
             }
             self.obs_count += 1;
-            if w != self.words[i] {
+            if !same_words(self.layout, &w, &self.words[i]) {
                 let ncomp = self.layout.ncomp();
                 let show = |w: &Words| -> String {
                     match self.layout {
@@ -719,7 +750,7 @@ macro_rules! exec_layout {
                         // whole buffer: only element k may have changed
                         let got = $readout(&owner);
                         ctx.checked();
-                        if got != model_words {
+                        if !same_buffers(layout, &got, &model_words) {
                             ctx.fail(
                                 "in-place-vs-by-value",
                                 &format!("in-place-vs-by-value:{}", layout.name()),
@@ -771,8 +802,8 @@ macro_rules! exec_layout {
                             *w = conv(*w);
                         }
                         let got = $readout(&owner);
-                        if got != model_words {
-                            let i = got.iter().zip(model_words.iter()).position(|(a, b)| a != b).unwrap_or(0);
+                        if !same_buffers(layout, &got, &model_words) {
+                            let i = got.iter().zip(model_words.iter()).position(|(a, b)| !same_words(layout, a, b)).unwrap_or(0);
                             ctx.fail(
                                 "in-place-vs-by-value",
                                 &format!("in-place-vs-by-value:{}:{how:?}", layout.name()),
